@@ -84,7 +84,7 @@ impl IntoStumpFuNum for usize {
     fn into_stumpfu(self) -> Term {
         let mut ret = abs!(2, Var(1));
 
-        for n in 1..self + 1 {
+        for n in 1..=self {
             ret = abs!(2, app!(Var(2), n.into_church(), ret));
         }
 
